@@ -8,6 +8,7 @@ From Coq Require Import List NArith Bool.
 From V Require Proofs.ExprsTie2.   (* expressions of cube.rs / ecube.rs / bdd.rs / canonization.rs, regenerated from the Rust source, equal the model's *)
 From V Require Proofs.GrayAll Proofs.CanonAllN.
 From V Require Proofs.SjtAll Proofs.CanonNpnAll.
+From V Require Import Checkers.Check Proofs.CheckSound Proofs.CheckSoundCanon.   (* the extracted checkers and their soundness proofs, pinned at the end of this file *)
 From V Require Import Base.Res Model.Kernels Model.Canon Spec.Bfun Spec.Transform Proofs.CanonWalk.
 Import ListNotations.
 Open Scope N_scope.
@@ -90,3 +91,44 @@ Proof. exact V.Proofs.CanonNpnAll.C05_already_canonical_npn_general. Qed.
 Print Assumptions C05_p_general.
 Print Assumptions C05_npn_general.
 Print Assumptions C05_already_canonical_npn_general.
+
+
+(* ---- soundness of the extracted checkers that decide this property's statement on the implementation's results *)
+Theorem C05_checker_is_permb_iff : forall n p,
+  is_permb n p = true <-> is_perm n p.
+Proof. exact CheckSoundCanon.is_permb_iff. Qed.
+
+Theorem C05_checker_cert_okb_iff : forall n f c perm mask,
+  cert_okb n f c perm mask = true <-> cert_ok n f c perm mask.
+Proof. exact CheckSoundCanon.cert_okb_iff. Qed.
+
+Theorem C05_checker_cert_iff : forall n f c perm mask,
+  chk_cert n f c perm mask = true <-> wf n c /\ cert_ok n (val f) (val c) perm mask.
+Proof. exact CheckSoundCanon.chk_cert_iff. Qed.
+
+Theorem C05_checker_cert_p_model : forall n t c perm,
+  (n <= 8)%nat -> wf n t ->
+  p_canonization n t = Ok (c, perm) -> chk_cert n t c perm 0 = true.
+Proof. exact CheckSoundCanon.chk_cert_p_model. Qed.
+
+Theorem C05_checker_cert_n_model : forall n t c mask,
+  (n <= 8)%nat -> wf n t ->
+  n_canonization n t = Ok (c, mask) -> chk_cert n t c (identity n) mask = true.
+Proof. exact CheckSoundCanon.chk_cert_n_model. Qed.
+
+Theorem C05_checker_cert_npn_model : forall n t c perm mask,
+  (n <= 8)%nat -> wf n t ->
+  npn_canonization n t = Ok (c, perm, mask) -> chk_cert n t c perm mask = true.
+Proof. exact CheckSoundCanon.chk_cert_npn_model. Qed.
+
+Theorem C05_checker_cert_unique : forall n f c1 c2 perm mask,
+  chk_cert n f c1 perm mask = true -> chk_cert n f c2 perm mask = true -> c1 = c2.
+Proof. exact CheckSoundCanon.chk_cert_unique. Qed.
+
+Print Assumptions C05_checker_is_permb_iff.
+Print Assumptions C05_checker_cert_okb_iff.
+Print Assumptions C05_checker_cert_iff.
+Print Assumptions C05_checker_cert_p_model.
+Print Assumptions C05_checker_cert_n_model.
+Print Assumptions C05_checker_cert_npn_model.
+Print Assumptions C05_checker_cert_unique.
